@@ -41,6 +41,7 @@ inductive Outcome where
     `count = 0` means unbounded (Python `None`/`0`); `qz`/`dl = none` means "use the timeline default". -/
 inductive Op where
   | schedule (sid : Nat) (qz dl : Option Nat) (count : Option Nat) (rwd : Bool) (name : Option Nat) (replace : Bool)
+  | scheduleAt (idx : Nat) (sid : Nat) (qz dl : Option Nat) (count : Option Nat) (rwd : Bool)   -- `track_index=idx`
   | update (tid sid : Nat) (qz dl : Option Nat) (count : Option Nat)
   | unschedule (tid : Nat)
   | clear
@@ -281,6 +282,15 @@ def applyOp (tl : TL) : Op → OpRes
         { tl := { tl with tracks := tl.tracks ++ [r.t], nextId := tl.nextId + 1,
                           actions := tl.actions ++ r.act.toList },
           calls := [], res := .ok }
+  | .scheduleAt idx sid qz dl count rwd =>
+    -- `schedule(..., track_index=idx)`: a new unnamed track, inserted at `idx` (`list.insert`: beyond the end = append)
+    if tl.maxTracks ≠ 0 ∧ tl.maxTracks ≤ tl.tracks.length then { tl := tl, calls := [], res := .limit }
+    else
+      { tl := { tl with tracks := tl.tracks.take idx ++
+                          (updateCore tl (newTrack tl.nextId none (count.getD 0) rwd) sid qz dl none).t :: tl.tracks.drop idx,
+                        nextId := tl.nextId + 1,
+                        actions := tl.actions ++ (updateCore tl (newTrack tl.nextId none (count.getD 0) rwd) sid qz dl none).act.toList },
+        calls := [], res := .ok }
   | .update tid sid qz dl count =>
     match tl.find tid with
     | some t => { tl := tl.updateTrack t sid qz dl count, calls := [], res := .ok }
